@@ -28,11 +28,16 @@ class C05(Prop):
     LEAN_MODULES = ["Proofs.C05"]
     PARALLEL = 16
     THEOREMS = [
+        # about the model of the code as it is (`twoPass`)
+        "PylifeVerif.C05.hcm_model_eq_guideline_code",
+        "PylifeVerif.C05.hcm_batch_eq_single_code",
+        "PylifeVerif.C05.hcm_neg_mirror_code",
+        # the same for the repaired variant `twoPassR`
         "PylifeVerif.C05.hcm_model_eq_guideline",
         "PylifeVerif.C05.hcm_batch_eq_single",
         "PylifeVerif.C05.hcm_neg_mirror",
     ]
-    PARTIAL = {"PylifeVerif.C05.hcm_batch_eq_single": "proved for all columns except the running strain extremes epsilon_min_LF / epsilon_max_LF (their update is decided on the first point's strains; checked by the oracle only, class batch-LF-first-point) and under SignPreserving (monotone law)"}
+    PARTIAL = {"PylifeVerif.C05.hcm_batch_eq_single_code": "proved for all columns except the running strain extremes epsilon_min_LF / epsilon_max_LF (their update is decided on the first point's strains; checked by the oracle only, class batch-LF-first-point) and under SignPreserving (monotone law)"}
     RULE = ("case = (load sequence of the first point, positive integer load ratios of 1-4 points, exact stub notch law); every column of "
             "the recorder's collective (min/max load, stress, strain, running strain extremes, closed/half flag, zero-mean flag, pass number) and the "
             "visited strain values are compared bit-exactly with the model; the Lean guideline procedure is compared with the oracle's reference "
